@@ -434,6 +434,10 @@ Proof.
   intros show_f64 env sub ptg rest [st buf] Hsub. unfold xlsb_step, xlsb_expected.
   destruct ptg as [|p]; [intros; exact I|]. follow_ptg.
   all: try leaf.
+  (* PtgRefN / PtgAreaN: refused without a base cell, else two cell references *)
+  all: try (intros Hlen Hi; cbn [fst snd];
+            match goal with |- context [be_base ?e] => destruct (be_base e) as [base|]; [|exact I] end;
+            repeat (reads; cbv zeta); finish; fail).
   all: intros Hlen Hi; cbn [fst snd]; reads.
   (* 3-D references: the sheet lookup never fails *)
   all: try (unfold sheet_name_xlsb;
